@@ -135,6 +135,16 @@ pub fn generate(thorough: bool, seed: u64, em: &mut Emitter) {
         } else {
             (Value::Null, json!({"kbpol": Value::Null}))
         };
-        em.case("present", present_case(&tok, &token, &clear, &redact, kb, 1, verifier));
+        // one unbound case in four is a session on one Holder: build, redact more, build, redact more, build
+        let staged = !bound && i % 4 == 3 && !redact.is_empty();
+        let mut case = present_case(&tok, &token, &clear, &redact, kb, if staged { 3 } else { 1 }, verifier);
+        if staged {
+            let cut1 = r.below(redact.len());
+            let cut2 = cut1 + r.below(redact.len() - cut1 + 1);
+            case["redact"] = json!(redact[..cut1].to_vec());
+            case["redact_after"] = json!([redact[cut1..cut2].to_vec(), redact[cut2..].to_vec()]);
+            case["tag"] = json!("staged_redaction");
+        }
+        em.case("present", case);
     }
 }
